@@ -68,10 +68,15 @@ pub enum Ctx {
     ForBody,
     WhileBody,
     Block,
+    /// branches a constant condition never takes (a static access all the same)
+    IfLiteralFalse,
+    IfLiteralTrueElse,
+    IfLocalConstFalse,
+    WhileLiteralFalse,
 }
 
 impl Ctx {
-    pub const ALL: [Ctx; 13] = [
+    pub const ALL: [Ctx; 17] = [
         Ctx::Top,
         Ctx::IfAccept,
         Ctx::IfReject,
@@ -85,6 +90,10 @@ impl Ctx {
         Ctx::ForBody,
         Ctx::WhileBody,
         Ctx::Block,
+        Ctx::IfLiteralFalse,
+        Ctx::IfLiteralTrueElse,
+        Ctx::IfLocalConstFalse,
+        Ctx::WhileLiteralFalse,
     ];
     /// Wraps a statement; `None` when the statement has no form this context can hold.
     pub fn wrap(self, s: &Stmt) -> Option<Stmt> {
@@ -103,6 +112,10 @@ impl Ctx {
             Ctx::ForBody => format!("for (var fi = 0; fi < 1; fi++) {{ {f} }}"),
             Ctx::WhileBody => format!("while cnd {{ {f} }}"),
             Ctx::Block => format!("{{ {f} }}"),
+            Ctx::IfLiteralFalse => format!("if false {{ {f} }}"),
+            Ctx::IfLiteralTrueElse => format!("if true {{ }} else {{ {f} }}"),
+            Ctx::IfLocalConstFalse => format!("{{ const k_never = false; if k_never {{ {f} }} }}"),
+            Ctx::WhileLiteralFalse => format!("while false {{ {f} }}"),
         };
         Some(Stmt { full, simple_init: None, simple_update: None })
     }
